@@ -376,8 +376,10 @@ def write_evidence(ctx, violations):
     }
     if pr.get('leanchecker'):
         ev['coverage']['leanchecker'] = pr['leanchecker']
-    os.makedirs(os.path.join(ROOT, 'evidence'), exist_ok=True)
-    json.dump(ev, open(os.path.join(ROOT, 'evidence', ctx.prop + '.json'), 'w'), indent=1)
+    # tools/seeded.py runs the checks against a deliberately broken tree: those runs must not overwrite the evidence
+    evdir = os.environ.get('VERIF_EVIDENCE_DIR') or os.path.join(ROOT, 'evidence')
+    os.makedirs(evdir, exist_ok=True)
+    json.dump(ev, open(os.path.join(evdir, ctx.prop + '.json'), 'w'), indent=1)
 
 
 def finish(ctx, violations_lines):
